@@ -634,3 +634,108 @@ def rule_precision_forwarded(db, chk, cfg, rule="PRECISION.forwarded"):
     if n < 10:
         raise AnalysisBroken("PRECISION.forwarded: only %d precision parameters / ClipperD constructions found in configuration %s" % (n, cfg))
     return n
+
+
+# ---------------------------------------------------------------------------
+# SCALE.total: the scaling primitives transform everything they are handed
+# ---------------------------------------------------------------------------
+
+def rule_scale_total(db, chk, cfg, rule="SCALE.total"):
+    """ScalePath / ScalePaths (the four-argument forms every PathsD entry goes through) return the element-wise image of their
+    input: on every path to a `return` the input has been run through the transform (a std::transform over it, or a loop over it
+    that appends to the result) - except where an error has just been reported (DoError on that path) or the branch is taken only
+    by short inputs (a pure size test).  A shortcut that returns early for some geometry ("the bounds are empty") silently hands
+    the integer engine less than the caller supplied."""
+    from ..flow import Walker, Client
+    from ..evalx import Interp, Unsupported
+    n = 0
+    for q in ("ScalePath", "ScalePaths"):
+        for f in db.find(q):
+            if f.is_pattern or f.body is None or len(f.params) != 4:
+                continue
+            pname = f.params[0].get("name")
+
+            class C(Client):
+                def __init__(self):
+                    self.bad = []
+
+                def join(self, a, b):
+                    return a and b
+
+                def stmt(self, node, st):
+                    if st:
+                        return st
+                    for y in walk(node):
+                        k = y.get("kind")
+                        if k == "CallExpr" and db.callee(y)[0] == "DoError":
+                            return True
+                        if k == "CallExpr" and db.callee(y)[0] == "transform" and any(canon(a).startswith(pname + ".") for a in db.call_args(y)[:2]):
+                            return True
+                    return st
+
+                def cond_atom(self, expr, st):
+                    ok_leaves = True
+                    for y in walk(expr):
+                        k = y.get("kind")
+                        if k == "DeclRefExpr" and y.get("referencedDecl", {}).get("name") != pname:
+                            ok_leaves = False
+                        if k in ("CallExpr", "CXXOperatorCallExpr") or (k == "CXXMemberCallExpr" and db.callee(y)[0] not in ("size", "empty")):
+                            ok_leaves = False
+                        if k == "MemberExpr" and y.get("name") not in ("size", "empty"):
+                            ok_leaves = False
+                    if ok_leaves and any(y.get("kind") == "CXXMemberCallExpr" for y in walk(expr)):
+                        def hook(name, argv, nd):
+                            if name == "size":
+                                return 1000
+                            if name == "empty":
+                                return False
+                            return NotImplemented
+                        try:
+                            long_takes = bool(Interp(db, {}, [], call_hook=hook).ev(expr))
+                            return (st, True) if long_takes else (True, st)
+                        except Unsupported:
+                            pass
+                    s2 = self.stmt(expr, st)
+                    return s2, s2
+
+                def on_return(self, node, st):
+                    if not st:
+                        self.bad.append(node)
+
+                def on_exit(self, st):
+                    if st is not None and not st:
+                        self.bad.append(None)
+
+            cl = C()
+            w = Walker(cl)
+            # loops over the input that append to the result count as the transform
+            body = f.body
+
+            def loop_fills(lp):
+                t = canon(lp)
+                return (pname in canon(kids(lp)[0] if lp.get("kind") != "CXXForRangeStmt" else lp)[:400]) and any(
+                    y.get("kind") == "CXXMemberCallExpr" and db.callee(y)[0] in ("emplace_back", "push_back") for y in walk(lp))
+            orig_stmt = cl.stmt
+
+            def stmt2(node, st, orig=orig_stmt):
+                return orig(node, st)
+            cl.stmt = stmt2
+            orig_loop = w._loop
+
+            def _loop2(nn, st):
+                out = orig_loop(nn, st)
+                if out is not None and not out and loop_fills(nn):
+                    return True
+                return out
+            w._loop = _loop2
+            w.function(body, False)
+            n += 1
+            chk.instance(rule, {"function": f.qual, "sig": f.sig[:70], "cfg": cfg}, ok=not cl.bad)
+            if cl.bad:
+                at = cl.bad[0]
+                chk.violation(rule, f.qual, f.sig.split("(")[0].strip()[-40:], "%s can return%s without having transformed its input and without having reported an error: the "
+                              "caller's paths are silently dropped before the integer operation sees them" % (f.qual, (" at %s" % where(at)) if at is not None else ""),
+                              where(at) if at is not None else f.where, cfg=cfg)
+    if n < 4:
+        raise AnalysisBroken("%s: only %d four-argument ScalePath / ScalePaths instantiations found (configuration %s)" % (rule, n, cfg))
+    return n
